@@ -57,6 +57,8 @@ Record case := {
   c_f : list (list (list Qc));      (* node -> part -> comps *)
   c_tau : list (option (list Qc));  (* index 0 unused, 1..M *)
   c_rin : bool; c_docoll : bool;
+  c_mass : list Qc;                 (* diagonal mass matrix (imex_1st_order_mass only) *)
+  c_level0 : bool;
 }.
 
 Definition Qc_eqb (a b : Qc) : bool := Qeq_bool a b.
@@ -120,3 +122,20 @@ Definition run_rk (C : case) : list Qc :=
 
 Definition check_rk_case (ce : case * list Qc) : Z :=
   match first_diff 0 (run_rk (fst ce)) (snd ce) with None => (-1)%Z | Some i => Z.of_nat i end.
+
+(* imex_1st_order_mass: diagonal mass matrix, mass-aware implicit solve (mass - a*lam) w = rhs + a*c*t *)
+Definition run_mass (C : case) : list Qc :=
+  let P := c_prob C in
+  let d := p_dim P in
+  let massop := fun (v : nat -> Qc) => memo d (fun x => nthq (c_mass C) x * v x) in
+  let msolve := fun (p : nat) (rhs : nat -> Qc) (a : Qc) (_ : nat -> Qc) (t : Qc) =>
+                  memo d (fun x => (rhs x + a * mat (p_c P) p x * t) / (nthq (c_mass C) x - a * mat (p_lam P) p x)) in
+  let '(un, fn) := mass_update 0 Qcplus Qcmult Qcminus (c_M C) (c_dt C) (c_t0 C) (nthq (c_nodes C)) (mat (c_Q C)) msolve (feval_of P)
+                              (mat (c_QA C)) (mat (c_QB C)) massop (c_level0 C) (nodevec_of (c_u C))
+                              (fun m p => nthq (nth p (nth m (c_f C) []) []))
+                              (fun m => option_map vec_of (nth m (c_tau C) None)) in
+  flat_map (fun m => map (un m) (seq 0 d)) (seq 1 (c_M C)) ++
+  flat_map (fun m => flat_map (fun p => map (fn m p) (seq 0 d)) (seq 0 2)) (seq 1 (c_M C)).
+
+Definition check_mass_case (ce : case * list Qc) : Z :=
+  match first_diff 0 (run_mass (fst ce)) (snd ce) with None => (-1)%Z | Some i => Z.of_nat i end.
